@@ -63,6 +63,8 @@ structure Manifest where
   /-- `max_fragment_id + 1` (0 for a table that never had a fragment) -/
   nextFrag : Nat
   indices : List Index
+  /-- the table uses stable row ids (FLAG_STABLE_ROW_IDS; fixed at creation) -/
+  stable : Bool := false
 
 /-- the cells of the indexed fields of one row -/
 def proj (F : List Nat) (r : Row) : List Cell := F.map (cellAt r)
@@ -93,12 +95,13 @@ abbrev Patch := List (Nat × List Cell)
     `aff` = per fragment the offsets this transaction deletes (`affected_rows`), `removed` = fragments it deletes
     wholly (`deleted_fragment_ids` / `removed_fragment_ids`, a subset of the ids of `aff`), `patches` = per fragment the
     columns a RewriteColumns update replaces (`updated_fragments` with a new data file), `news` = `new_fragments`,
-    `fm` = `fields_modified`, `hit` = `affected_rows` (equal to `aff` for RewriteRows; none for RewriteColumns), `colsMode` = `update_mode` is RewriteColumns. -/
+    `fm` = `fields_modified`, `hit` = `affected_rows` (equal to `aff` for RewriteRows; none for RewriteColumns), `rowsMode` = `update_mode`: `none` for RewriteColumns, `some fields_for_preserving_frag_bitmap` (the fields the UPDATE
+    statement assigns) for RewriteRows. -/
 inductive Txn where
   | append (news : List (List Row))
   | delete (aff : List (Nat × List Nat)) (removed : List Nat)
   | update (aff : List (Nat × List Nat)) (removed : List Nat) (patches : List (Nat × Patch)) (news : List (List Row))
-      (fm : List Nat) (hit : List (Nat × List Nat)) (colsMode : Bool)
+      (fm : List Nat) (hit : List (Nat × List Nat)) (rowsMode : Option (List Nat))
   | createIndex (new : List Index) (removed : List Nat)
   | dataRepl (f : Nat) (p : Patch)
   | reserve (n : Nat)
@@ -145,6 +148,23 @@ def prune (ixs : List Index) (ids fm : List Nat) : List Index :=
   else ixs.map fun i =>
     if inter i.fields fm then { i with bitmap := i.bitmap.filter (fun f => !ids.contains f) } else i
 
+/-- build_manifest, Update arm, `config.use_stable_row_ids && update_mode == Some(RewriteRows)`:
+    register_pure_rewrite_rows_update_frags_in_indices.  With stable row ids the rows an update moves keep their row
+    ids, so an index on a field the update does not assign still holds the right entries for them: the new (pure:
+    every row carries a row id) fragments are added to the bitmap of every such index that covers EVERY fragment the
+    moved rows come from (`removed_fragment_ids` and `updated_fragments`). -/
+def register (stable : Bool) (rowsMode : Option (List Nat)) (ixs : List Index) (newIds originals : List Nat) :
+    List Index :=
+  if !stable then ixs
+  else
+    match rowsMode with
+    | none => ixs
+    | some pres =>
+      if newIds.isEmpty then ixs
+      else ixs.map fun i =>
+        if inter i.fields pres then i
+        else if originals.all i.bitmap.contains then { i with bitmap := i.bitmap ++ newIds } else i
+
 /-- `finish_delete_update`: a row this transaction deletes was deleted by a transaction committed since -/
 def rowConflict (m : Manifest) (aff : List (Nat × List Nat)) : Bool :=
   aff.any fun fa =>
@@ -177,14 +197,16 @@ def build (m : Manifest) : Txn → Except Err Manifest
     if rowConflict m aff then .error .retryable
     else .ok { m with frags := fun f =>
       if removed.contains f || (gone m aff).contains f then none else (m.frags f).map (modFrag aff [] f) }
-  | .update aff removed patches news fm hit _ =>
+  | .update aff removed patches news fm hit rm =>
     if rowConflict m hit then .error .retryable
     else .ok {
       frags := addNews (fun f => if removed.contains f || (gone m aff).contains f then none
                                  else (m.frags f).map (modFrag aff patches f))
                  m.nextFrag news,
       nextFrag := m.nextFrag + news.length,
-      indices := prune m.indices (updatedIds aff patches) fm }
+      indices := register m.stable rm (prune m.indices (updatedIds aff patches) fm)
+        ((List.range news.length).map (m.nextFrag + ·)) (aff.map (·.1) ++ removed.filter (fun f => !(aff.map (·.1)).contains f)),
+      stable := m.stable }
   | .createIndex new removed =>
     .ok { m with indices :=
             (m.indices.filter fun e => !(new.any fun n => n.name == e.name) && !removed.contains e.uuid) ++ new }
@@ -233,7 +255,7 @@ def conflicts (mine other : Txn) : Bool :=
   -- deletion files"): any Update / Delete of one of its fragments is a conflict; with affected rows only a change of
   -- the fragment's files or its removal is (deletion vectors are merged row by row, `rowConflict`)
   | .update aff removed ps nw fm ht cm, o =>
-    inter (Txn.update aff removed ps nw fm ht cm).modified (if cm then o.udModified else o.filesChanged)
+    inter (Txn.update aff removed ps nw fm ht cm).modified (if cm.isNone then o.udModified else o.filesChanged)
   -- check_data_replacement_txn
   | .dataRepl _ p, .createIndex new _ => inter (new.flatMap (·.fields)) (patchFields p)
   | .dataRepl f p, .dataRepl f' p' => f == f' && inter (patchFields p) (patchFields p')
@@ -315,7 +337,7 @@ def bDelete (m : Manifest) (keys : List Int) : Txn := .delete (affOf m keys) (re
 def bUpdate (m : Manifest) (col : Nat) (keys : List Int) (v : Int) : Txn :=
   .update (affOf m keys) (removedOf m keys) []
     (if (matchedRows m keys).isEmpty then [] else [(matchedRows m keys).map fun r => r.set col (some v)]) []
-    (affOf m keys) false
+    (affOf m keys) (some [col])
 
 def srcFor (src : List Row) (k : Cell) : Option Row := src.find? fun s => keyOf s == k
 
@@ -341,7 +363,7 @@ def mixPatches (m : Manifest) (src : List Row) : List (Nat × Patch) :=
     with a matched live row; fields_modified = the fields of the data files it adds = {c0, c1} (nothing when no row
     matches: the transaction is committed all the same) -/
 def bMix (m : Manifest) (src : List Row) : Txn :=
-  .update [] [] (mixPatches m src) [] (if (mixPatches m src).isEmpty then [] else [0, 1]) [] true
+  .update [] [] (mixPatches m src) [] (if (mixPatches m src).isEmpty then [] else [0, 1]) [] none
 
 /-- the entries a training scan of fragment `f` produces -/
 def fragEnts (m : Manifest) (F : List Nat) (f : Nat) : List Ent :=
